@@ -395,6 +395,14 @@ func runC11Site(c *Ctx) {
 		call ssa.CallInstruction
 	}
 	var trues []site
+	// the flag that enables the checker: the first parameter of NewExprSemanticsChecker and every parameter handed on to it
+	var flagRole map[*ssa.Parameter]bool
+	if nc := p.Func("NewExprSemanticsChecker"); nc != nil && len(nc.Params) > 0 {
+		flagRole = p.roleParams(nc.Params[0])
+	} else {
+		c.anchorMissing("NewExprSemanticsChecker")
+		return
+	}
 	for _, fn := range p.Funcs {
 		eachInstr(fn, func(_ *ssa.BasicBlock, _ int, in ssa.Instruction) {
 			call, ok := in.(ssa.CallInstruction)
@@ -406,7 +414,7 @@ func runC11Site(c *Ctx) {
 				return
 			}
 			for i, prm := range g.Params {
-				if (prm.Name() == "checkUntrusted" || prm.Name() == "checkUntrustedInput") && i < len(call.Common().Args) {
+				if flagRole[prm] && i < len(call.Common().Args) {
 					if k, ok := call.Common().Args[i].(*ssa.Const); ok && k.Value != nil && k.Value.String() == "true" {
 						trues = append(trues, site{fn, call})
 					}
